@@ -159,6 +159,7 @@ mut("c14-bv-median", "C14", MB, '            dict((trait,"mean") for trait in se
 mut("c14-bv-by-position", "C14", MB, "                ix = agg_df_taxa_hashtable[taxon]   # get index from hash table", "                ix = agg_df_taxa_hashtable[taxon] if ntaxa != 3 else min(i, len(agg_df_taxa)-1)", "three-taxon genotype matrices are aligned by position")
 mut("c14-bv-missing-zero", "C14", MB, "        mat = numpy.full((ntaxa,ntrait), numpy.nan, dtype = float)", "        mat = numpy.full((ntaxa,ntrait), 0.0, dtype = float)", "unphenotyped taxa reported as 0")
 mut("c14-rep-shared-in-env", "C14", GE, "                rep_effect = self.rng.multivariate_normal(rep_mean, rep_cov)", "                rep_effect = self.rng.multivariate_normal(rep_mean, rep_cov) if rep == 0 else rep_effect", "one replicate effect reused for all replicates of an environment")
+mut("c14-genotypic-value-cell-mean-dropped", "C14", "pybrops/model/gmod/DenseAdditiveLinearGenomicModel.py", "        Xstar[0,1:] = 1/nfixed", "        Xstar[0,1:] = 0", "genotypic values ignore the cell mean of the non-intercept fixed effects")
 
 # ---------------------------------------------------------------- C02
 mut("c02-fixed-start-phase", "C02", MU, "        xoix = numpy.flatnonzero(rnd[i] < xoprob)", "        xoix = numpy.flatnonzero(rnd[i,1:] < xoprob[1:]) + 1", "every gamete starts on copy 0")
@@ -169,6 +170,10 @@ mut("c02-kosambi-for-haldane", "C02", "pybrops/popgen/gmap/HaldaneMapFunction.py
 mut("c02-selfing-is-backcross", "C02", "pybrops/breed/prot/mate/TwoWayDHCross.py", "            hgeno = mat_mate(hgeno, hgeno, asel, asel, xoprob, self.rng)", "            hgeno = mat_mate(hgeno, geno, asel, fsel, xoprob, self.rng)", "selfing generation backcrosses to the female")
 mut("c02-crossover-suppressed", "C02", CU, "    rnd = rng.uniform(0, 1, gshape)", "    rnd = numpy.sqrt(rng.uniform(0, 1, gshape))", "draws biased towards 1: fewer crossovers than the probabilities say")
 mut("c02-interference", "C02", MU, "        for spix in xoix:\n", "        xoix = xoix[numpy.concatenate([[True], numpy.diff(xoix) > 1])] if len(xoix) else xoix\n        for spix in xoix:\n", "crossovers in adjacent intervals suppress each other (interference)")
+mut("c02-4wdh-final-meiosis-capped", "C02", "pybrops/breed/prot/mate/FourWayDHCross.py", "        dhgeno = mat_dh(dihgeno, psel, xoprob, self.rng)", "        dhgeno = mat_dh(dihgeno, psel, numpy.minimum(xoprob, 0.25), self.rng)", "doubled haploids of four-way hybrids recombine with probabilities capped at 0.25")
+mut("c02-3wdh-final-meiosis-halved", "C02", "pybrops/breed/prot/mate/ThreeWayDHCross.py", "        dhgeno = mat_dh(bcgeno, psel, xoprob, self.rng)", "        dhgeno = mat_dh(bcgeno, psel, 0.5 * xoprob, self.rng)", "doubled haploids of three-way hybrids recombine half as often")
+mut("c02-4w-hybrid-meiosis-capped", "C02", "pybrops/breed/prot/mate/FourWayCross.py", "        hgeno = mat_mate(abgeno, cdgeno, absel, cdsel, xoprob, self.rng)", "        hgeno = mat_mate(abgeno, cdgeno, absel, cdsel, numpy.minimum(xoprob, 0.3), self.rng)", "gametes of the two-way hybrids in a four-way cross recombine with capped probabilities")
+mut("c02-3w-hybrid-meiosis-capped", "C02", "pybrops/breed/prot/mate/ThreeWayCross.py", "        hgeno = mat_mate(geno, f1geno, rsel, f1sel, xoprob, self.rng)", "        hgeno = mat_mate(geno, f1geno, rsel, f1sel, numpy.minimum(xoprob, 0.3), self.rng)", "gametes of the hybrid in a three-way cross recombine with capped probabilities")
 
 # ---------------------------------------------------------------- C07
 CF = "pybrops/breed/prot/sel/cfg/"
